@@ -1,4 +1,5 @@
 void harness(void) {
+  VERIF_PROLOGUE();
   uint64_t x;
   round_down_to_power_of_2(x);
   VERIF_REACHABLE();
